@@ -138,6 +138,9 @@ type caseState struct {
 const (
 	qPlain   = "SELECT COUNT(*) AS n, {start_time} AS ws, {end_time} AS we FROM %s.src WHERE time >= {start_time} AND time < {end_time}"
 	qGrouped = "SELECT host, COUNT(*) AS n, {start_time} AS ws, {end_time} AS we FROM %s.src WHERE time >= {start_time} AND time < {end_time} GROUP BY host"
+	// the aggregation succeeds in DuckDB, but its `time` output is a string that is not RFC3339: the real
+	// ArrowBuffer rejects the destination write
+	qBadTime = "SELECT '2026-01-01 00:00:00' AS time, COUNT(*) AS n, {start_time} AS ws, {end_time} AS we FROM %s.src WHERE time >= {start_time} AND time < {end_time}"
 	qBroken  = "SELECT no_such_column AS n, {start_time} AS ws, {end_time} AS we FROM %s.src WHERE time >= {start_time} AND time < {end_time}"
 )
 
@@ -147,6 +150,8 @@ func (cs *caseState) queryText(kind string) (string, []string) {
 		return fmt.Sprintf(qGrouped, cs.dbName), []string{"host"}
 	case "broken":
 		return fmt.Sprintf(qBroken, cs.dbName), nil
+	case "badtime":
+		return fmt.Sprintf(qBadTime, cs.dbName), nil
 	}
 	return fmt.Sprintf(qPlain, cs.dbName), nil
 }
@@ -357,6 +362,7 @@ func rowsText(rs []destRow) (string, string) {
 func (cs *caseState) setFault(f string) {
 	set := func(k string, v int) { cs.aux.Exec("UPDATE verif_fault SET v = ? WHERE k = ?", v, k) }
 	api.VerifAggFault = nil
+	api.VerifWriteFault = nil
 	set("ins", 0)
 	set("upd", 0)
 	if f != "off" {
@@ -375,6 +381,11 @@ func (cs *caseState) setFault(f string) {
 		set("ins", 1)
 	case "upd":
 		set("upd", 1)
+	case "wr":
+		api.VerifWriteFault = func() error { return fmt.Errorf("verif: injected destination write rejection") }
+	}
+	if f != "off" {
+		api.VerifWriteOK, api.VerifWriteRejected = 0, 0
 	}
 }
 
@@ -497,7 +508,7 @@ func (cs *caseState) exec(op string) string {
 		cs.e.logs.take()
 		lpBefore := cs.cursor()
 		recBefore := cs.records()
-		ob := obs{kind: f[0], now: now, lpBefore: lpBefore}
+		ob := obs{kind: f[0], now: now, lpBefore: lpBefore, reportedRows: -1}
 		status, win := "", "-"
 		if f[0] == "sched" {
 			cs.setFault(f[2])
@@ -527,6 +538,9 @@ func (cs *caseState) exec(op string) string {
 						if status == "unknown" {
 							status = "completed"
 						}
+						if v, ok := l["records_written"].(float64); ok {
+							ob.reportedRows = int64(v)
+						}
 					case "Failed to record execution (data was written)":
 						status = "recfailed"
 					}
@@ -550,6 +564,9 @@ func (cs *caseState) exec(op string) string {
 			logs := cs.e.logs.take()
 			if code == 200 {
 				status = fmt.Sprint(m["status"])
+				if v, ok := m["records_written"].(float64); ok {
+					ob.reportedRows = int64(v)
+				}
 				s, ok1 := parseSec(fmt.Sprint(m["start_time"]))
 				e, ok2 := parseSec(fmt.Sprint(m["end_time"]))
 				if ok1 && ok2 {
@@ -586,10 +603,15 @@ func (cs *caseState) exec(op string) string {
 		recAfter := cs.records()
 		nc, nf := recCounts(recAfter)
 		ob.status, ob.rows, ob.lpAfter = status, fresh, cs.cursor()
+		ob.writeOK, ob.writeRejected = api.VerifWriteOK, api.VerifWriteRejected
+		rw := "-"
+		if reportedOK(status) {
+			rw = strconv.FormatInt(ob.reportedRows, 10)
+		}
 		ob.recBefore, ob.recAfter = recBefore, recAfter
 		cs.mon.observe(op, ob)
 		cs.c.Tag(f[0] + ":" + status)
-		return fmt.Sprintf("%s w=%s rows=%s label=%s lp=%s rec=%d/%d", status, win, rt, lt, ob.lpAfter, nc, nf)
+		return fmt.Sprintf("%s w=%s rows=%s rw=%s label=%s lp=%s rec=%d/%d", status, win, rt, rw, lt, ob.lpAfter, nc, nf)
 
 	case "upd": // upd <now_ns> <active> <intervalSec> <qkind>
 		if len(f) != 5 || cs.h == nil {
@@ -692,7 +714,7 @@ func main() {
 		c.Op(bad, cs.exec(bad))
 	}
 	c.Finish("cases = one continuous query's history (new; then scheduled ticks / manual executions with and without explicit " +
-		"start/end, dry runs, injected aggregation / record-insert / record-update failures, query updates incl. deactivation and " +
-		"broken SQL, restarts from the same SQLite file, source-row arrivals) — a fixed corpus of edge histories, then random " +
+		"start/end, dry runs, injected aggregation / destination-write / record-insert / record-update failures, query updates incl. " +
+		"deactivation, broken SQL and output the buffer rejects, idle gaps of days/weeks, restarts from the same SQLite file, source-row arrivals) — a fixed corpus of edge histories, then random " +
 		"histories from one PRNG; non-trivial = history contains at least one fault, explicit range, update or restart; distinct = distinct op text")
 }
